@@ -623,6 +623,9 @@ func genDetHistory(seed uint64, h int) *detHist {
 		hd.p.houseMin, hd.p.houseFee, hd.p.obMaxPart, hd.p.betMin = 2, "0", 100, 2
 		hd.p.obRequeue = uint64(r.Pick([]int64{0, 0, 0, 1}))
 	}
+	if hd.p.betFee >= hd.p.betMin {
+		hd.p.betFee = hd.p.betMin - 1 // x/bet: the fee must be lower than the minimum bet amount
+	}
 	g.prom, g.betMin = hd.p.promoterOf, hd.p.betMin
 	g.now = BaseTime + 100
 	nBlocks := 6 + r.Intn(9)
@@ -843,17 +846,29 @@ func execDet(hd *detHist, alt bool) *detRun {
 	bp.BatchSettlementCount = hd.p.betBatch
 	bp.Constraints.MinAmount = sdkmath.NewInt(hd.p.betMin)
 	bp.Constraints.Fee = sdkmath.NewInt(hd.p.betFee)
-	app.BetKeeper.SetParams(e.Ctx, bp)
+	if err := bp.Validate(); err == nil {
+		app.BetKeeper.SetParams(e.Ctx, bp)
+	} else {
+		d.add("result", "setup", "p bet default (drawn set rejected by Params.Validate)") // the tree's validators decide
+	}
 	hp := app.HouseKeeper.GetParams(e.Ctx)
 	hp.MinDeposit = sdkmath.NewInt(hd.p.houseMin)
 	hp.HouseParticipationFee = sdkmath.LegacyMustNewDecFromStr(hd.p.houseFee)
 	hp.MaxWithdrawalCount = hd.p.houseMaxW
-	app.HouseKeeper.SetParams(e.Ctx, hp)
+	if err := hp.Validate(); err == nil {
+		app.HouseKeeper.SetParams(e.Ctx, hp)
+	} else {
+		d.add("result", "setup", "p house default (drawn set rejected by Params.Validate)")
+	}
 	op := app.OrderbookKeeper.GetParams(e.Ctx)
 	op.MaxOrderBookParticipations = hd.p.obMaxPart
 	op.BatchSettlementCount = hd.p.obBatch
 	op.RequeueThreshold = hd.p.obRequeue
-	app.OrderbookKeeper.SetParams(e.Ctx, op)
+	if err := op.Validate(); err == nil {
+		app.OrderbookKeeper.SetParams(e.Ctx, op)
+	} else {
+		d.add("result", "setup", "p orderbook default (drawn set rejected by Params.Validate)")
+	}
 	prom := e.Accts[hd.p.promoterOf].String()
 	app.RewardKeeper.SetPromoter(e.Ctx, rewardtypes.Promoter{Creator: prom, UID: UID(0x04, 1), Addresses: []string{prom},
 		Conf: rewardtypes.PromoterConf{CategoryCap: []rewardtypes.CategoryCap{{Category: rewardtypes.RewardCategory_REWARD_CATEGORY_SIGNUP, CapPerAcc: 2}}}})
@@ -1199,6 +1214,9 @@ func runDeterminism(seed uint64, n int, out *Out) {
 			cls, det := classify(d1.recs, d2.recs, ia, ib)
 			out.Fail(MonFail{Property: "C15", Monitor: "replica_agreement", Class: cls, History: h,
 				Detail: "two executions of the same history in one process disagree; " + det})
+			// the list-order question is only meaningful against a reproducible baseline
+			out.Count("ticket_list_order.skipped(no reproducible baseline)")
+			continue
 		}
 		// (4) reversed all_odds lists: state and events are those of the original tickets
 		if ia, ib := firstDiff(d1.recs, d3.recs, appKinds); ia != -2 {
